@@ -136,7 +136,7 @@ def flag_rules(ctx, facts, rep, rule="C02-FLAGS"):
     from engine.paths import paths as _paths
     spec = ctx.spec("appnote.json")["flags"]
     ok = True
-    A_ASCII, A_ENC = r"is_ascii\(.*file_name", r"(^|\.)encrypted$"
+    A_ASCII, A_ENC = r"is_ascii\(.*file_name(?!_raw)\b", r"(^|\.)encrypted$"      # (the name that is written -- not the raw buffer, which is empty for entries the writer started)
     for pat, idx in ((r"^write::write_local_file_header$", 2), (r"^write::write_central_directory_header$", 3)):
         f = facts.one(pat)
         key = "flags[%s]" % f.path.split("::")[-1]
@@ -190,7 +190,7 @@ def _flag_value_ok(f, ex, op, at, spec):
             else:
                 return False, "flag operand %s is not a single-bit constant" % show(val)
             fs = dominating_facts(f, ex, dbb)
-            ascii_t = [x[2] for x in fs if x[0] == "truth" and any(y[0] == "call" and y[1].endswith("is_ascii") and ".file_name" in tokens(y) for y in walk(x[1]))]
+            ascii_t = [x[2] for x in fs if x[0] == "truth" and any(y[0] == "call" and y[1].endswith("is_ascii") and ".file_name" in tokens(y) and ".file_name_raw" not in tokens(y) for y in walk(x[1]))]
             enc_t = [x[2] for x in fs if x[0] == "truth" and x[1][0] == "field" and x[1][2] == "encrypted"]
             seen.setdefault(bit, []).append((ascii_t, enc_t))
     bits = {b for b in seen if b != "zero"}
